@@ -183,6 +183,18 @@ func GenCaseOpt(r *core.Rng, id int, getter bool) *conv.Case {
 			cfg.StructReferences = true
 		}
 	}
+	if id%12 == 8 {
+		if of := gen.OpFlattenAbstractPlainOp(s, "OF"); of != nil {
+			defs = append(defs, of)
+		}
+	}
+	if id%6 == 4 {
+		// an explicit `omitempty: false` against the default of use_struct_references
+		if oe := gen.OmitemptyFalseOp(s, "OE"); oe != nil {
+			defs = append(defs, oe)
+			cfg.StructReferences = true
+		}
+	}
 	if id%12 == 5 {
 		// one typename for two different abstract types (after a legitimate reuse): must be rejected
 		if tt := gen.TripleTypenameAbstractOp(s, "T3"); tt != nil {
